@@ -31,17 +31,25 @@ def main():
     ap.add_argument('--seeds', default='0')
     ap.add_argument('--demo')
     ap.add_argument('--tests', action='store_true')
+    ap.add_argument('--inplace', action='store_true', help='apply to /repo itself (git apply, undone afterwards)')
     a = ap.parse_args()
+    tmp = tempfile.mkdtemp(prefix='seedrun-', dir=os.environ.get('VERIF_SCRATCH', '/var/tmp'))
+    global REPO
+    if not a.inplace:
+        # default: a scratch copy of /repo's working tree (background sweeps may be using /repo itself)
+        copy = os.path.join(tmp, 'repo')
+        subprocess.run(['rsync', '-a', '--exclude', '__pycache__', '/repo/', copy + '/'], check=True)
+        REPO = copy
     st = sh(['git', '-C', REPO, 'status', '--porcelain'])
     if st.stdout.strip():
-        print('refusing: /repo working tree is not clean:\n' + st.stdout)
+        print('refusing: working tree is not clean:\n' + st.stdout)
         return 2
     r = sh(['git', '-C', REPO, 'apply', os.path.abspath(a.patch)])
     if r.returncode != 0:
         print('patch does not apply:', r.stderr)
+        shutil.rmtree(tmp, ignore_errors=True)
         return 2
     out = {'patch': a.patch, 'checks': {}}
-    tmp = tempfile.mkdtemp(prefix='seedrun-', dir=os.environ.get('VERIF_SCRATCH', '/var/tmp'))
     try:
         if a.tests:
             t = sh(['/venv/bin/python', '-m', 'pytest', '-q', '-p', 'no:cacheprovider', '--timeout=300', 'geodepy/tests', 'api'], cwd=REPO)
@@ -51,21 +59,23 @@ def main():
             out['demo_with_change'] = {'rc': d.returncode, 'tail': (d.stdout + d.stderr).strip().splitlines()[-2:]}
         for pid in a.props:
             for seed in a.seeds.split(','):
-                env = dict(os.environ, VERIF_SEED=seed, VERIF_EVIDENCE_DIR=os.path.join(tmp, 'ev'), VERIF_REPLAY_DIR=os.path.join(tmp, 'rp'))
+                env = dict(os.environ, VERIF_SEED=seed, VERIF_REPO_ROOT=REPO, VERIF_EVIDENCE_DIR=os.path.join(tmp, 'ev'), VERIF_REPLAY_DIR=os.path.join(tmp, 'rp'))
                 c = sh([os.path.join(ROOT, 'check'), pid, '--tier', a.tier], env=env)
                 mechs = [l.strip().split()[0][len('mechanism='):] for l in c.stdout.splitlines() if l.strip().startswith('mechanism=')]
                 out['checks']['%s/seed%s' % (pid, seed)] = {'rc': c.returncode, 'mechanisms': mechs[:8]}
     finally:
-        sh(['git', '-C', REPO, 'checkout', '--', '.'])
+        if a.inplace:
+            sh(['git', '-C', REPO, 'checkout', '--', '.'])
         shutil.rmtree(tmp, ignore_errors=True)
     if a.demo:
         d = sh(['/venv/bin/python', os.path.abspath(a.demo)], cwd=REPO, env=dict(os.environ, PYTHONPATH=REPO, SEED_WORKTREE=REPO))
         out['demo_without_change'] = {'rc': d.returncode, 'tail': (d.stdout + d.stderr).strip().splitlines()[-2:]}
     out['caught'] = any(v['rc'] == 1 for v in out['checks'].values())
     print(json.dumps(out, indent=1))
-    st = sh(['git', '-C', REPO, 'status', '--porcelain'])
-    if st.stdout.strip():
-        print('WARNING: /repo not clean after undo:\n' + st.stdout)
+    if a.inplace:
+        st = sh(['git', '-C', REPO, 'status', '--porcelain'])
+        if st.stdout.strip():
+            print('WARNING: /repo not clean after undo:\n' + st.stdout)
     return 0
 
 
